@@ -942,6 +942,43 @@ func rulesC19(c *Ctx) {
 			}
 		}
 		c.Pin("hand-written struct conversions in codec functions", n, 5)
+		// a value conversion copies: whatever is assigned to the source after `*x = T(src)` is lost. In every
+		// UnmarshalJSON of the protocol types no field of the converted value is written after the conversion.
+		nConv := 0
+		for _, f := range c.P.FuncsIn(pM) {
+			if f.Obj == nil || f.Obj.Name() != "UnmarshalJSON" || f.Body == nil {
+				continue
+			}
+			g := f.Graph()
+			for _, w := range Writes(f.Body, false) {
+				st, isStar := ast.Unparen(w.LHS).(*ast.StarExpr)
+				if !isStar || w.RHS == nil || f.ObjOf(st.X) != types.Object(f.Recv()) {
+					continue
+				}
+				conv, isCall := ast.Unparen(w.RHS).(*ast.CallExpr)
+				if !isCall || len(conv.Args) != 1 {
+					continue
+				}
+				if tv, ok := f.Info().Types[conv.Fun]; !ok || !tv.IsType() {
+					continue
+				}
+				nConv++
+				src := canonExpr(f, conv.Args[0])
+				after := g.ReachableFrom(g.VertexOf(w.Stmt))
+				late := false
+				for _, w2 := range Writes(f.Body, false) {
+					if w2.Stmt == w.Stmt {
+						continue
+					}
+					if l := canonExpr(f, w2.LHS); (l == src || strings.HasPrefix(l, src+".")) && after[g.VertexOf(w2.Stmt)] {
+						late = true
+					}
+				}
+				c.Check(!late, "UnmarshalJSON:"+f.Name()+":nothing-assigned-after-the-conversion", f, w.Stmt, "every field of %s is set before it is converted into the receiver (a later assignment changes only the local copy)", src)
+			}
+		}
+		c.Pin("UnmarshalJSON conversions into the receiver", nConv, 3)
+
 	})
 
 	c.Rule("R-C19-8", "decoding never panics on a JSON null inside a container: in UnmarshalJSON methods and the helpers they call, an element of a decoded map[K]*T or []*T is dereferenced only under a nil test (encoding/json stores nil for a null element)", func() {
